@@ -209,7 +209,14 @@ class HostCase:
             async def go():
                 await self.mgr.a_inject(raw)
                 await settle(self.loop)
-            self.r.d.run(go())
+            try:
+                self.r.d.run(go())
+            except (SystemExit, _Kill, KeyboardInterrupt) as e:
+                # asyncio re-raises these from the task that died of them:
+                # the listener let a non-Exception through
+                self.listener_dead = True
+                self.escaped = repr(e)
+                self.ctx.count('non_exceptions_that_ended_the_listener_task')
             t = getattr(self.mgr, 'thread', None)
             if t is not None and t.done():
                 self.listener_dead = True
